@@ -239,6 +239,8 @@ fn churn_stream(rep: &mut Report, rng: &mut Rng, n: usize) {
 // ------------------------------------------------------------------------------------------------ C06
 
 pub fn run_c06(ctx: &Ctx) -> Report {
+    // zero-count entries of run reports are not compared across thread counts (see child::render_outputs); children inherit it
+    unsafe { std::env::set_var("VERIF_DROP_ZERO_MATCHES", "1"); }
     let mut rep = Report::new("C06", "generated monotone programs (C01 generator + lattice functions + subsume) run with 1, 2, 4 and 16 threads with every EGGLOG_PARALLEL_*_CUTOFF at 0 (parallel code paths on small inputs) in this process, and with default cut-offs / action batch size 1 / fork depth 0 in child processes; check outcomes, sizes, function values, extraction costs and canonical dumps compared with the 1-thread run after every command. non-trivial = a configuration with > 1 thread and cut-offs 0 (parallel branches taken) on a program with a run command");
     let mut rng = Rng::new(ctx.seed ^ 0xC06);
     // corpus: defect 14 — a :naive rule re-writing an existing value under (saturate ..) must terminate with 4 threads too
